@@ -282,6 +282,97 @@ UnjudgedLines(phys) ==
   UNION {{[file |-> f, line |-> k] : k \in UNION {LR!DevLines(phys[f], LR!ReadFile(phys[f], B)) : B \in LineCaps(phys)}} : f \in DOMAIN phys}
 ChunkedIn(phys) == \E f \in DOMAIN phys : LR!Chunked(LR!ReadFile(phys[f], LR!RealBuf))
 
+(***************************************************************************)
+(* -E targets over ONE invocation with SEVERAL sources.                    *)
+(* "asl [options] s1 s2 s3" assembles the sources one after the other      *)
+(* (as.c main() -> AssembleGroup -> AssembleFile); where the messages of   *)
+(* a source go is a function of -E and of that source's name (manual,      *)
+(* assembler-usage: "-E [file]": redirected to a file, !0..!2 the standard *)
+(* handles, default !2, without a name <source>.LOG).  The code keeps ONE  *)
+(* handle for the whole invocation and opens it lazily:                    *)
+(*   path  ErrorPath   "" = -E without name                                *)
+(*   name  ErrorName   the file the NEXT open creates                      *)
+(*   file  ErrorFile   "" = NULL; a standard handle; the name the handle   *)
+(*                     was opened under; Orphan = open, name removed       *)
+(*   fs    the files written in the working directory, ch the handles      *)
+(* The operators are the five places of the code that touch these.         *)
+(***************************************************************************)
+StdHandles == {"!0", "!1", "!2"}
+DefaultErrorPath == "!2"                                  \* as.c main(): strcpy(ErrorPath, "!2")
+Orphan == "(unlinked)"
+NoFiles == [x \in {} |-> <<>>]
+FPut(fs, n, v) == [x \in DOMAIN fs \cup {n} |-> IF x = n THEN v ELSE fs[x]]
+FDel(fs, n) == [x \in DOMAIN fs \ {n} |-> fs[x]]
+\* <source>.log: the generator's sources are x.asm (KillSuffix / AddSuffix LogSuffix)
+LogOf(src) == CASE src = "a.asm" -> "a.log" [] src = "b.asm" -> "b.log" [] src = "c.asm" -> "c.log" [] OTHER -> "x.log"
+
+SinkInit(path) == [path |-> path, name |-> "", file |-> "", fs |-> NoFiles, ch |-> [h \in StdHandles |-> <<>>]]
+SinkUnlink(s, n) == [s EXCEPT !.fs = FDel(@, n), !.file = IF @ = n THEN Orphan ELSE @]
+CloseIfOpen(s) == [s EXCEPT !.file = ""]                                              \* stdhandl.c
+\* as.c main(), before the first source: if (ErrorPath[0]) { strcpy(ErrorName, ErrorPath); unlink(ErrorName); }
+SinkMainBegin(s) == IF s.path # "" THEN SinkUnlink([s EXCEPT !.name = s.path], s.path) ELSE s
+\* as.c AssembleFile(), head: if (!*ErrorPath) { ErrorName = <source>.log; unlink(ErrorName); }
+SinkFileBegin(s, src) == IF s.path = "" THEN SinkUnlink([s EXCEPT !.name = LogOf(src)], LogOf(src)) ELSE s
+\* asmerr.c WrErrorString(): if (!ErrorFile) OpenWithStandard(&ErrorFile, ErrorName) - fopen(.., "w") creates / empties
+SinkOpen(s) == IF s.file # "" THEN s
+               ELSE IF s.name \in StdHandles THEN [s EXCEPT !.file = s.name]
+               ELSE [s EXCEPT !.file = s.name, !.fs = FPut(@, s.name, <<>>)]
+SinkWrite(s, m) == LET t == SinkOpen(s)
+                   IN IF t.file \in StdHandles THEN [t EXCEPT !.ch[t.file] = Append(@, m)]
+                      ELSE IF t.file = Orphan THEN t
+                      ELSE [t EXCEPT !.fs[t.file] = Append(@, m)]
+\* as.c AssembleFile(), tail: if (!*ErrorPath) CloseIfOpen(&ErrorFile);   (the per-source log is complete)
+SinkFileEnd(s) == IF s.path = "" THEN CloseIfOpen(s) ELSE s
+\* as.c main(), behind the last source: if (*ErrorPath) CloseIfOpen(&ErrorFile);
+SinkMainEnd(s) == IF s.path # "" THEN CloseIfOpen(s) ELSE s
+
+RECURSIVE SinkWriteAll(_, _)
+SinkWriteAll(s, ms) == IF ms = <<>> THEN s ELSE SinkWriteAll(SinkWrite(s, Head(ms)), Tail(ms))
+RECURSIVE SinkSources(_, _, _, _)
+SinkSources(s, srcs, msgs, k) ==
+  IF k > Len(srcs) THEN s ELSE SinkSources(SinkFileEnd(SinkWriteAll(SinkFileBegin(s, srcs[k]), msgs[k])), srcs, msgs, k + 1)
+\* the invocation: msgs[k] = the messages source k raises, in the order it raises them
+SinkRun(path, srcs, msgs) == SinkMainEnd(SinkSources(SinkMainBegin(SinkInit(path)), srcs, msgs, 1))
+\* what a place (a file name or a standard handle) holds at the end
+SinkHolds(s, T) == IF T \in StdHandles THEN s.ch[T] ELSE IF T \in DOMAIN s.fs THEN s.fs[T] ELSE <<>>
+
+\* Declarative meaning of -E (the manual's sentence, no handle): the option set sends the messages of a source to ONE
+\* place, and a place holds the messages of all sources sent there, each source's in the order raised, the sources in
+\* command-line order - nothing is lost, nothing lands elsewhere.
+TargetOf(path, src) == IF path = "" THEN LogOf(src) ELSE path
+HeldDecl(path, srcs, msgs, T) == Flatten([k \in DOMAIN srcs |-> IF TargetOf(path, srcs[k]) = T THEN msgs[k] ELSE <<>>])
+DistinctLogs(srcs) == \A i, j \in DOMAIN srcs : i # j => LogOf(srcs[i]) # LogOf(srcs[j])
+SinkAgreesWithDecl(path, srcs, msgs, places) ==
+  LET s == SinkRun(path, srcs, msgs)
+  IN /\ s.file = ""                                                   \* the handle is closed when the invocation ends
+     /\ \A T \in places \cup DOMAIN s.fs \cup StdHandles : SinkHolds(s, T) = HeldDecl(path, srcs, msgs, T)
+
+\* --- the sources of such an invocation: source i is SrcName(i), its faulty lines stand at places that depend on i
+\* (so that the same shape in two sources is told apart by file AND line); I1.INC is shared by all sources that
+\* include it, N<i>.INC (which includes I1.INC) belongs to source i
+SrcName(i) == CASE i = 1 -> "a.asm" [] i = 2 -> "b.asm" [] OTHER -> "c.asm"
+NestInc(i) == "N" \o ToString(i) \o ".INC"
+SrcShapes == {"clean", "main", "incl", "macro", "late", "warn", "nest", "rept", "cont2"}
+SrcLines(i, shape) ==
+  LET lead == [j \in 1..i |-> Clean(j)]
+  IN CASE shape = "clean" -> lead \o <<Clean(8)>>
+       [] shape = "main" -> lead \o <<FLT("F1200"), Clean(8)>>
+       [] shape = "incl" -> lead \o <<L(<<>>, "INCLUDE", <<"I1", ".", "INC">>), FLT("F1320"), Clean(8)>>
+       [] shape = "macro" -> LET w == Wrap(<<"MACRO">>, 1, 1, 0, FLT("F1200")) IN lead \o w.defs \o w.body \o <<Clean(8)>>
+       [] shape = "late" -> lead \o <<Clean(7), FLT("F1010")>>                   \* complains in the second pass, last line
+       [] shape = "warn" -> lead \o <<FLT("W60"), Clean(8), FLT("W60")>>         \* warnings only: the source assembles
+       [] shape = "nest" -> lead \o <<ContLine(1), L(<<>>, "INCLUDE", <<"N" \o ToString(i), ".", "INC">>), Clean(8)>>
+       [] shape = "rept" -> LET w == Wrap(<<"REPT">>, 1, 0, 1, FLT("F1110")) IN lead \o w.body \o <<FLT("F1200")>>
+       [] OTHER -> lead \o <<ContLine(2), FLT("F1200"), Clean(8), FLT("F1320")>>
+MultiFiles(shapes) ==
+  LET n == Len(shapes)
+      incs == (IF \E i \in 1..n : shapes[i] \in {"incl", "nest"} THEN {"I1.INC"} ELSE {})
+              \cup {NestInc(i) : i \in {j \in 1..n : shapes[j] = "nest"}}
+  IN [f \in {SrcName(i) : i \in 1..n} \cup incs |->
+        IF f = "I1.INC" THEN <<Clean(2), FLT("F1110"), Clean(3)>>
+        ELSE IF \E i \in 1..n : f = NestInc(i) THEN <<Clean(4), L(<<>>, "INCLUDE", <<"I1", ".", "INC">>), FLT("F1200")>>
+        ELSE LET i == CHOOSE i \in 1..n : SrcName(i) = f IN SrcLines(i, shapes[i])]
+
 \* EXPECT blocks: announced numbers A (sequence), occurring faults O (sequence of fault ops)
 ExpectProg(A, O, closed, nested) ==
   [f \in {"a.asm"} |->
